@@ -66,6 +66,14 @@ TP_CTORS = [
     # TIMEPOINT_DUMPER_MAP
     {"year": 1234567, "num_expanded_year_digits": 3, "month_of_year": 6,
      "day_of_month": 30, "hour_of_day": 12},
+    # a stored custom format that cannot hold the year: str() raises (and
+    # must leave the value alone); the last one gets there by arithmetic
+    {"year": 12345, "month_of_year": 1, "day_of_month": 1,
+     "dump_format": "CCYYMMDDThhmmZ"},
+    {"year": -5, "month_of_year": 1, "day_of_month": 1,
+     "dump_format": "CCYY-MM-DD"},
+    {"year": 9999, "month_of_year": 12, "day_of_month": 31,
+     "hour_of_day": 23, "dump_format": "CCYY-MM-DDThh"},
 ]
 # truncated points built directly: their zone is *unknown* (the parsers give
 # truncated points the local zone unless told to default to unknown)
